@@ -334,3 +334,27 @@ CHECKS["C14"].update({
     "note": "Trusted: Lean kernel; flag extraction; generators. untouched_preserved for extend is partial (args/members composed per type, not per schema).",
     "technique": "Lean 4 proof over heap model (closedness and frame for clone/transform/extend) + live object-graph correspondence",
 })
+CHECKS["C20"].update({
+    "text": ("Lean theorems about the safe-change predicates TRANSLATED from differ/__init__.py on every run (safeIn_iff: exact for all type expressions; "
+             "safeOut_iff_partial + machine-checked refutation of the full statement = finding G1; safeOut_base / safeIn_base) and about the severity table "
+             "EXTRACTED from changes.py. diff_schema itself is modelled in Lean (Diff.lean, root operation types included) with: diff_refl (all schemas "
+             "with unique names), diff_perm / diff_perm_count / no_breaking_perm (permuting the type and directive definitions of either schema permutes "
+             "the report: same multiset of changes at every filter), one *_reported theorem for EVERY elementary edit of the property's list (types, kinds, "
+             "root types, fields, arguments, input fields, enum values, union members, interface implementations, directives, locations, defaults, "
+             "deprecations: the unfiltered report contains the change of the expected class naming the element; reported_at_severity lifts to every "
+             "filter not above the class severity), min_severity_filters, nobreaking_args_permissive (semantic, full), nobreaking_fields_strict_partial "
+             "(list-free types; G1), the schema-shape facts nobreaking_types_kept / kinds_kept / fields_kept / arguments_kept / "
+             "no_new_required_argument / enum_values_kept / union_members_kept / input_fields / kindOf / fieldOf / rootType, and the headline "
+             "operations_stay_valid: no BREAKING change reported => every document that is ValidDoc (the declarative validity predicate of C05's "
+             "soundness theorem) on the old schema is ValidDoc on the new one, for all documents and variables. Tied by exhaustive comparison of the "
+             "real predicates with the compiled model on all type pairs of depth<=3/4, comparison of the real diff_schema with the Lean model on every "
+             "generated schema pair (multiset of class, severity, identifying attributes), and a schema-level oracle (generated schema + elementary edit + "
+             "reverse edit, 20 edit kinds incl. root types; definition permutations; code-built enums; diff/clone/transform/in-place-visitor histories; "
+             "schemas derived by argument-renaming/dropping transforms vs the same schema rebuilt from its SDL; repeated diffs on the same objects)."),
+    "note": ("Trusted: Lean kernel; py2lean translator; reference semantics of type expressions on abstract values (accepts); generators. diff_schema's "
+             "traversal is hand-modelled and tied by correspondence (not re-translated). operations_stay_valid speaks about selection-level validity "
+             "(ValidDoc: fields, leaves, type conditions, fragments, roots); argument- and variable-level validity is covered by the shape theorems "
+             "(arguments kept, no new required argument, input positions at least as permissive) and by sampled valid operations re-validated on the new "
+             "schema. Known finding G1; G2 (root types never compared) was repaired in /repo."),
+    "technique": "Lean 4 proof (translated predicates, diff model: reflexivity, order independence, every edit reported, operations stay valid) + exhaustive small-scope correspondence + edit oracle",
+})
